@@ -159,6 +159,28 @@ theorem closed_nothing_pending (w : Writer) (ops : List WOp) (h0 : w.closed = tr
     have := ih (wstep w o) h1
     simpa [wrun, List.foldl_cons] using this
 
+/-! ### two writers alive at the same time (C10.two_writers, C07 nested samplers) -/
+
+/-- two writers alive at the same time: an operation is addressed to one of them (`false` = the first) -/
+def wstep2 (s : Writer × Writer) (a : Bool × WOp) : Writer × Writer :=
+  if a.1 then (s.1, wstep s.2 a.2) else (wstep s.1 a.2, s.2)
+def wrun2 (s : Writer × Writer) (ops : List (Bool × WOp)) : Writer × Writer := ops.foldl wstep2 s
+
+/-- the operations addressed to one of the writers -/
+def opsOf (b : Bool) (ops : List (Bool × WOp)) : List WOp := (ops.filter (fun a => a.1 == b)).map (·.2)
+
+/-- **two writers do not see each other**: whatever the interleaving, each writer ends where it would
+    have ended alone with the operations addressed to it (its file holds its own columns, in order) -/
+theorem two_writers_independent (s : Writer × Writer) (ops : List (Bool × WOp)) :
+    wrun2 s ops = (wrun s.1 (opsOf false ops), wrun s.2 (opsOf true ops)) := by
+  induction ops generalizing s with
+  | nil => rfl
+  | cons a rest ih =>
+    obtain ⟨b, o⟩ := a
+    simp only [wrun2, List.foldl_cons] at ih ⊢
+    rw [ih]
+    cases b <;> simp [wstep2, opsOf, wrun]
+
 /-! ### non-vacuity -/
 example : (wrun ⟨[], [], false, 0⟩ [.copy, .append 1, .append 2, .flush, .append 3, .close, .closeCopy, .append 4]).file = [1, 2, 3] := by decide
 
